@@ -87,3 +87,42 @@ Print Assumptions C07_later_builds_unaffected.
 Print Assumptions C07_process_ignores_coherent_cache.
 Print Assumptions C07_no_trace_run.
 Print Assumptions C07_no_trace_from_genesis.
+
+(* ================= C07 at full strength through L1 (worker link; proofs/LinkNoise*.v) =================
+   For ANY capacity of the forkless-cause LRU: take a valid run D (every event accepted by the rules,
+   forkers < 1/3; validator list in any order) and interleave it arbitrarily with noise — before each
+   valid event's Build (s_pre), between its Build and its Process (s_mid) and after the last event (tl):
+     OpB x   speculative Builds of arbitrary events (temporary ids from the build counter),
+     OpP x   Process calls that the application's guard skips or that end with ErrWrongFrame,
+             under ids J that no valid event carries,
+     OpR     restarts (new Store over the same databases, fresh index, Bootstrap),
+     OpM / OpG / OpQ / OpV  probes.
+   Then the observations of the valid events (accept codes, frames assigned by Build, blocks with
+   Atropos and cheaters) are exactly those of the run without noise, and equal the reference:
+   rejected and merely built events leave no trace.  ok_from: every noise operation, in the state in
+   which it is executed, is such an operation: nothing is asked of Builds and probes (LinkNoise.build_alive:
+   a Build never crashes here); a noise Process was skipped or rejected with ErrWrongFrame.
+   noise_side: ids of valid and rejected events are not temporary ids for a counter <= K, K >= number of
+   Builds in the whole schedule, K < 2^192. *)
+From LV Require Import spec.ElectionSpec proofs.BftProps proofs.LinkVals proofs.LinkPerm proofs.LinkDefs
+  proofs.LinkRaw proofs.LinkNoise proofs.LinkNoiseRaw proofs.LinkExample proofs.LinkNoiseExample.
+
+Theorem C07_no_trace_any_cache : forall (cap : nat) lam vals (sc : list slot) (tl : list op) J K,
+  let D := map s_ev sc in let ops := sched_ops lam vals sc tl in let mask := sched_mask sc tl in
+  raw_ok vals -> v_total vals < 2 ^ 31 -> noise_side D J K ops -> valid_run vals D ->
+  ok_from cap J (start 1 vals) ops mask ->
+  render (pick mask (run cap [] sample (start 1 vals) ops)) = reference vals D /\
+  render (pick mask (run cap [] sample (start 1 vals) ops)) = abft_run cap lam vals D.
+Proof. exact link_noise_raw. Qed.
+
+(* non-vacuity: 48 valid events + 62 noise operations (a wrong-frame Process offered twice, speculative
+   Builds, three restarts, probes), cache capacity 3; the instance of the theorem and the same by evaluation *)
+Example C07_no_trace_any_cache_example :
+  map s_ev nx_sc = ex3_D /\ noise_side ex3_D nx_J 100 nx_ops /\ valid_run ex_vals ex3_D /\
+  ok_from 3 nx_J (start 1 ex_vals) nx_ops nx_mask /\
+  (count_builds nx_ops = 52%nat /\ length nx_ops = 110%nat /\
+   existsb (fun o => match o with ObsP (Some EWrongFrame) _ _ _ => true | _ => false end) (run 3 [] sample (start 1 ex_vals) nx_ops) = true) /\
+  render (pick nx_mask (run 3 [] sample (start 1 ex_vals) nx_ops)) = reference ex_vals ex3_D.
+Proof. exact (conj nx_D (conj nx_side (conj ex3_valid (conj nx_ok (conj nx_has_noise nx_no_trace_by_evaluation))))). Qed.
+
+Print Assumptions C07_no_trace_any_cache.
